@@ -100,8 +100,7 @@ def configs(tier):
             out.append((cfg_of(n, loops, cache, 100, pad0, "resize"), 0))
         out.append((cfg_of("I4", 2, True, "DYN", "Arel", "small"), 0))
         for n, loops, cache in ((2, 2, True), (3, -1, False), ("I3", 1, True), ("I4", 2, False)):
-            for extra in (dict(ctor="frd"), dict(postponed="unread"), dict(postponed="read"),
-                          dict(postponed="unread", ctor="frd")):
+            for extra in (dict(ctor="frd"), dict(postponed="unread"), dict(postponed="read", ctor="frd")):
                 out.append((dict(cfg_of(n, loops, cache, 100, "E0", "one"), **extra), 0))
         # unmerged cross-checks: depth 4 on the reduced alphabet, depth 3 on a richer one
         out.append((cfg_of(2, 2, True, 100, "E0", "tiny"), 4))
